@@ -631,6 +631,52 @@ Definition excl_decl_clash (S : schema) (d : document) : bool :=
   | _ => false
   end.
 
+(** A condition on the NAMES of the schema and the document only (no generator run) that is meant
+    to imply [excl_decl_clash S d = false]; it is conservative (it looks at all enums and all
+    composite types of the schema, used or not).  The implication
+      [decl_safe S d = true -> excl_decl_clash S d = false]
+    is NOT proved yet (it needs an invariant on the generator's struct counter); the correspondence
+    check evaluates it on every case (verdict bad-case "decl-safe-does-not-exclude-clash"). *)
+Fixpoint starts_with (pre s : bytes) : bool :=
+  match pre, s with
+  | [], _ => true
+  | a :: p', b :: s' => (a =? b) && starts_with p' s'
+  | _ :: _, [] => false
+  end.
+
+Definition ends_with_digit (s : bytes) : bool :=
+  match rev s with c :: _ => is_digit c | [] => false end.
+
+Fixpoint sel_keys (s : selection) : list name :=
+  match s with
+  | SField a f sub => sel_key a f :: flat_map sel_keys sub
+  | SInline _ sub => flat_map sel_keys sub
+  | SSpread _ _ _ => []          (* the body is the fragment definition, visited on its own *)
+  end.
+
+Definition decl_safe (S : schema) (d : document) : bool :=
+  let enums := flat_map (fun t => match t with DEnum n vs => [(n, vs)] | _ => [] end) (s_types S) in
+  let composites := flat_map (fun t => match t with
+                                       | DObj n _ _ | DIface n _ | DUnion n _ => [n]
+                                       | _ => []
+                                       end) (s_types S) in
+  let frag_names := map fr_name (d_frags d) in
+  let declared :=
+    map fst enums ++ flat_map (fun e : name * list name => map (enum_const (fst e)) (snd e)) enums ++
+    flat_map (fun o => match op_name o with Some n => [data_type_name n] | None => [] end) (d_ops d) ++
+    map frag_type_name frag_names in
+  let keys := flat_map (fun o => flat_map sel_keys (op_sels o)) (d_ops d) ++
+              flat_map (fun f => flat_map sel_keys (fr_sels f)) (d_frags d) in
+  (* enum types, enum constants, <Op>Data, <F>Fragment: pairwise distinct usable identifiers ... *)
+  nodupb declared && forallb go_ident_ok declared &&
+  (* ... that cannot coincide with a sel<T><n> type or with the json import *)
+  forallb (fun n => negb (starts_with (bs "sel") n)) declared && negb (mem (bs "json") declared) &&
+  (* sel<T1><n1> = sel<T2><n2> needs a type name that ends in a digit *)
+  forallb (fun t => negb (ends_with_digit t)) composites &&
+  (* struct fields: of fragments (named after the type condition / the fragment) and of response keys *)
+  forallb (fun n => go_ident_ok (field_name n) && negb (starts_with (bs "__") n)) (composites ++ frag_names) &&
+  forallb (fun k => go_ident_ok (field_name k)) keys.
+
 (** ** Responses shaped by an operation *)
 Inductive rv :=
 | RNull
